@@ -211,9 +211,33 @@ REQUEST_FIELDS = {
     'ATT_Write_Command': dict(attribute_handle=HANDLE, attribute_value=Bytes),
     'ATT_Handle_Value_Confirmation': dict(),
 }
-# every PDU class bumble registers gets a view; the ones without a specific handler need no field
+# the PDUs without a handler in the server (responses, server-originated PDUs, requests bumble does not implement):
+# their fields only matter to the log lines of a native replay (str(pdu)); the dispatcher never reads them
+U8 = IntRange(0, 0xFF)
+OTHER_FIELDS = {
+    'ATT_Error_Response': dict(request_opcode_in_error=U8, attribute_handle_in_error=HANDLE, error_code=U8),
+    'ATT_Exchange_MTU_Response': dict(server_rx_mtu=U16),
+    'ATT_Find_Information_Response': dict(format=U8, information_data=Bytes, information=ListOf(TupleOf(Int, Bytes))),
+    'ATT_Find_By_Type_Value_Response': dict(handles_information_list=Bytes, handles_information=ListOf(TupleOf(Int, Int))),
+    'ATT_Read_By_Type_Response': dict(length=U8, attribute_data_list=Bytes, attributes=ListOf(TupleOf(Int, Bytes))),
+    'ATT_Read_Response': dict(attribute_value=Bytes),
+    'ATT_Read_Blob_Response': dict(part_attribute_value=Bytes),
+    'ATT_Read_Multiple_Response': dict(set_of_values=Bytes),
+    'ATT_Read_By_Group_Type_Response': dict(length=U8, attribute_data_list=Bytes, attributes=ListOf(TupleOf(Int, Int, Bytes))),
+    'ATT_Read_Multiple_Variable_Response': dict(length_value_tuple_list=ListOf(TupleOf(Int, Bytes))),
+    'ATT_Write_Response': dict(),
+    'ATT_Signed_Write_Command': dict(attribute_handle=HANDLE, attribute_value=Bytes),
+    'ATT_Prepare_Write_Request': dict(attribute_handle=HANDLE, value_offset=U16, part_attribute_value=Bytes),
+    'ATT_Prepare_Write_Response': dict(attribute_handle=HANDLE, value_offset=U16, part_attribute_value=Bytes),
+    'ATT_Execute_Write_Request': dict(flags=U8),
+    'ATT_Execute_Write_Response': dict(),
+    'ATT_Handle_Value_Notification': dict(attribute_handle=HANDLE, attribute_value=Bytes),
+    'ATT_Handle_Value_Indication': dict(attribute_handle=HANDLE, attribute_value=Bytes),
+}
+# every PDU class bumble registers gets a view
 for _cls in att.ATT_PDU.pdu_classes.values():
-    model(f'bumble.att:{_cls.__name__}#c10', fields=REQUEST_FIELDS.get(_cls.__name__, {}))
+    assert _cls.__name__ in REQUEST_FIELDS or _cls.__name__ in OTHER_FIELDS, _cls
+    model(f'bumble.att:{_cls.__name__}#c10', fields=REQUEST_FIELDS.get(_cls.__name__) if _cls.__name__ in REQUEST_FIELDS else OTHER_FIELDS[_cls.__name__])
 
 
 def request_of(handler_name):
@@ -434,5 +458,6 @@ contract(
     modifies=['ghost.nresp', 'ghost.rbearer', 'ghost.rop', 'ghost.rerr_op', 'ghost.rerr', 'ghost.rlen', 'ghost.nreads'],
     inline=PDU_INLINE,
     decorators_ok=RUN_IN_TASK,
-    note='bounded stand-in (2 handles, both readable, values of 10 and 20 octets, any ATT_MTU): detection and replay only',
+    bounded='2 handles, both readable, values of 10 and 20 octets, any ATT_MTU',
+    note='bounded stand-in: detection and replay only',
 )
